@@ -266,6 +266,10 @@ func genC12(r *Rng, tier string) *Plan {
 			if r.Chance(1, 3) {
 				// (a complete foreign artifact dropped in while a run holds the old one in memory is a
 				// lost-update race outside the property's sequential histories: see DESIGN.md corrections)
+				csrBefore := map[string]bool{}
+				for id, v := range g.Csr {
+					csrBefore[id] = v
+				}
 				if ops := g.c12Op(&nextEnt); len(ops) > 0 && ops[0].K == "replace-art" {
 					for _, o := range ops {
 						g.P.Add(o) // sequential, after the run
@@ -276,6 +280,15 @@ func genC12(r *Rng, tier string) *Plan {
 						o.ID = g.P.nextID() + 100 + len(run.Actor)
 						run.Actor = append(run.Actor, ActorStep{AtOp: at, Op: o})
 						at++
+					}
+					// the run may already hold the old artifact in memory and write it back: an entity
+					// that was request-based before this run may still be afterwards, whatever the step
+					// did to its file. The generator keeps treating it as such (it never turns one into a
+					// root, which cannot sign itself).
+					for id, v := range csrBefore {
+						if v && g.ent(id) != nil {
+							g.Csr[id] = true
+						}
 					}
 				}
 			}
@@ -325,7 +338,7 @@ func (o *c12Oracle) AfterRun(w *World, op *Op, res *RunResult) {
 		return
 	}
 	if !res.OK() {
-		w.Fail("final-run-failed", "Run{-m -c} on a runnable world failed: stage=%s err=%s", res.Stage, res.Err)
+		w.Fail("final-run-failed:"+res.FailClass(), "Run{-m -c} on a runnable world failed: stage=%s err=%s", res.Stage, res.Err)
 		return
 	}
 	if len(res.Plan) > 0 {
@@ -496,7 +509,7 @@ func execC12(t *testing.T, plan *Plan) *World {
 	ws := Exec(t, sp, nil)
 	if len(ws.Runs) != 1 || !ws.Runs[0].OK() {
 		r := ws.Runs[0]
-		w.Fail("scratch-run-failed", "a from-scratch run over the final configuration failed although the incremental one succeeded: stage=%s err=%s panic=%s", r.Stage, r.Err, r.Panic)
+		w.Fail("scratch-run-failed:"+r.FailClass(), "a from-scratch run over the final configuration failed although the incremental one succeeded: stage=%s err=%s panic=%s", r.Stage, r.Err, r.Panic)
 		return w
 	}
 	for _, e := range w.Entities() {
